@@ -41,6 +41,37 @@ def impl_feed(segs):
     return out, (bytes(buf) if buf is not None else None)
 
 
+def interleaved_objects(ctx, rng, n):
+    """reassembly state belongs to ONE connection: two (three) protocol objects of one process fed alternately with the
+    segments of their own, different streams deliver exactly what each delivers when fed alone"""
+    for _ in range(n):
+        k = rng.choice([2, 2, 3])
+        streams = []
+        for _j in range(k):
+            packets = [mk_packet(rng, rng.choice([0, 1, 5, 8, 16, 33]), seeded=rng.random() < 0.5) for _ in range(rng.randrange(1, 4))]
+            data = garbage(rng) + b"".join(packets)
+            cuts = sorted(rng.sample(range(1, len(data)), min(len(data) - 1, rng.randrange(1, 6))))
+            segs = [data[a:b] for a, b in zip([0] + cuts, cuts + [len(data)])]
+            streams.append((packets, segs))
+        alone = [[x for seg in impl_feed(segs)[0] for x in seg] for _p, segs in streams]
+        protos = [lan._LanProtocolV3() for _ in streams]
+        got = [[] for _ in streams]
+        pos = [0] * k
+        while any(pos[j] < len(streams[j][1]) for j in range(k)):
+            j = rng.choice([j for j in range(k) if pos[j] < len(streams[j][1])])
+            protos[j].data_received(bytes(streams[j][1][pos[j]]))
+            got[j] += _drain(protos[j])
+            pos[j] += 1
+        inp = {"streams": [[hx(s_) for s_ in segs] for _p, segs in streams]}
+        for j in range(k):
+            if got[j] != alone[j] or got[j] != streams[j][0]:
+                ctx.violate("interleaved_objects", inp, {"object": j, "delivered": [hx(x) for x in got[j]]},
+                            {"delivered": [hx(x) for x in streams[j][0]]},
+                            "a protocol object fed in alternation with another one delivers something else than when fed alone")
+                break
+        ctx.case("interleaved_objects", key=str(inp), sample={"objects": k, "segments": [len(sg) for _p, sg in streams]})
+
+
 def mk_packet(rng, n, seeded=False):
     """a V3-framed packet with an n-byte body after the 6-byte header: size field = n - 2"""
     body = bytearray(rng.randrange(256) for _ in range(n + 2))
@@ -182,6 +213,7 @@ def run(ctx):
         k = rng.randrange(0, min(total - 1, 40) + 1)
         check(ctx, "random_cuts", g, packets, tuple(sorted(rng.sample(range(1, total), k))))
         check(ctx, "coalesced", g, packets, ())
+    interleaved_objects(ctx, rng, 60 if not thorough else 1500)
     through_lan(ctx, rng, 25 if not thorough else 300)
 
 
